@@ -28,6 +28,22 @@
 // points in the gater, the dialer and the waiters, so that the registration lands around the
 // waiter's check-then-register window; the direct connection then stays until the waiters returned.
 //
+// Strata are drawn first: layer A 7, layer B (TCP) 2, race 2, QUIC 3 of 14 runs.
+//
+// QUIC stratum = layer B on the transport hole punching was designed for (real quic-go + p2p/transport/quic +
+// quicreuse, instrumented, over simnet's UDP wire; simrand.Install pins crypto/rand): A and B listen on QUIC only
+// (the relay and the relayed connections stay on TCP), so the direct address A learns over the relayed connection
+// (identify) or knows beforehand is B's /quic-v1 address. The NAT is a UDP filter: a datagram from X towards a
+// "filtered" node Y is dropped unless Y sent a datagram to X within the last 2 s (or the flow is established and
+// not idle for 2 min); "symmetric": always dropped; "open": passes. A unilateral direct dial therefore fails and
+// the DCUtR exchange succeeds only if both sides really send at about the same time: the receiver of the dcutr
+// stream with a normal QUIC dial, the initiator through the transport's holePunch() (random 64-byte datagrams +
+// waiting for its own listener to accept the connection; third attempt with the roles swapped). Part of the
+// runs adds UDP loss (5% / 15%), duplication and per-datagram latency (reordering); these faults stop before
+// the closing phase. All layer-A/B oracles apply unchanged; additionally no UDP socket may survive the nodes.
+// (A TCP listener next to the QUIC one is not modelled: simnet's partition predicate cannot tell TCP from UDP
+// on the same port.)
+//
 // Layer B: A and B on public addresses behind simulated stateful firewalls
 // (filtered: an inbound connection is accepted only from an IP the host dialled within the last
 // 2 s; open; symmetric: never), optional link latency, real hole punching services on both
@@ -90,17 +106,25 @@
 //	holePunchConnect without force-direct                             holepunch-success-without-direct-conn (+ holepunch-connect-without-force-direct)
 //	hole puncher's first direct dial without force-direct             direct-dial-success-without-direct-conn
 //
+// Re-checked through the QUIC stratum only (C12_LAYER=Q, 3 workers): holePunchConnect swallows the error
+// (holepunch-success-without-direct-conn, 5 s), bestAcceptableConnToPeer ignores force-direct
+// (direct-dial-success-without-direct-conn, 3 s), receiver accepts a dcutr stream on a direct connection
+// (holepunch-coordinated-over-direct-conn, ~60 s), addConn does not close the waiters' channels (waiter-not-released, 19 s).
 // Equivalent for this property (not caught, by construction): waitForDirectConn returning the limited
 // connection AFTER being woken (Conn.NewStream's re-check turns it into the same ErrLimitedConn);
 // Host.Connect treating Limited as connected without allow-limited (DialPeer returns the limited
 // connection anyway, Host.NewStream then waits in Swarm.NewStream).
+
+//go:debug randseednop=0
 package c12
 
 import (
+	mrand "math/rand"
 	"os"
 	"testing"
 
 	"verifsim/harness/common"
+	"verifsim/simrand"
 	"verifsim/simrt"
 )
 
@@ -109,9 +133,17 @@ func TestSim(t *testing.T) { common.Main(t, common.Harness{Property: "C12", Run:
 func run(t *testing.T, tape *simrt.Tape) *common.Outcome {
 	g := simrt.Gen{S: tape.G}
 	// stratum first (0 = layer A, the main stratum)
-	mode := g.Weighted(7, 2, 2)
+	mode := g.Weighted(7, 2, 2, 3)
 	if l := os.Getenv("C12_LAYER"); l != "" { // development aid only (never set by ./check): pin the stratum
-		mode = map[string]int{"A": modeA, "B": modeB, "R": modeRace}[l]
+		mode = map[string]int{"A": modeA, "B": modeB, "R": modeRace, "Q": modeQUIC}[l]
+	}
+	// the QUIC transport's holePunch() paces its packets with the GLOBAL math/rand generator: pin it per run
+	// (needs the go:debug line above; the top-level generator is otherwise seeded by the runtime)
+	mrand.Seed(int64(1000 + mode))
+	if mode == modeQUIC {
+		// deterministic crypto/rand (connection ids, TLS randoms) for the QUIC stratum, before any node is built
+		restore := simrand.Install(uint64(1 + g.Int(1<<16)))
+		defer restore()
 	}
 	return runWorld(t, tape, g, mode)
 }
